@@ -133,6 +133,7 @@ pub struct G<'a> {
     pub rng: SplitMix64,
     members: &'a Members,
     counter: u64,
+    fcur: usize,
     pub stats: BTreeMap<String, u64>,
     pub types_seen: HashMap<(u32, u32), ()>,
     v: AutosarVersion,
@@ -141,7 +142,7 @@ pub struct G<'a> {
 
 impl<'a> G<'a> {
     pub fn new(seed: u64, members: &'a Members) -> Self {
-        G { rng: SplitMix64(seed), members, counter: 0, stats: BTreeMap::new(), types_seen: HashMap::new(), v: AutosarVersion::LATEST, budget: 0 }
+        G { rng: SplitMix64(seed), members, counter: 0, fcur: 0, stats: BTreeMap::new(), types_seen: HashMap::new(), v: AutosarVersion::LATEST, budget: 0 }
     }
     fn chance(&mut self, pct: u64) -> bool {
         self.rng.below(100) < pct
@@ -282,11 +283,17 @@ impl<'a> G<'a> {
             }
             CharacterDataSpec::Float => {
                 self.stat("value.float");
+                // the special values of f64 in every spelling str::parse::<f64> takes, handed out ROUND-ROBIN so that each of them
+                // occurs in every run (sign of infinity and of zero, overflow to infinity, smallest subnormal, min normal, ...);
+                // "-nan" is left out: NaN has no sign in xsd:double and f64::to_string prints NaN for both
                 const F: &[&str] = &[
-                    "0", "1.5", "-0", "1e10", "-1.25E-3", "inf", "-inf", "NaN", "nan", ".5", "5.", "1e400", "4.9e-324", "0.1", "+3.0", "123456789012345678901234567890",
-                    "2.2250738585072014e-308", "1.7976931348623157e308", "0.30000000000000004", "9007199254740993", "1e23", "8.41e21", "5e-324", "infinity",
+                    "INF", "-INF", "+INF", "inf", "-inf", "+inf", "infinity", "-Infinity", "NaN", "nan", "-0", "-0.0", "0.0", "0", "+0", "-0e0", "1e400", "-1e400", "4.9e-324",
+                    "-4.9e-324", "5e-324", "2.2250738585072014e-308", "2.225073858507201e-308", "1e-320", "-1e-310", "1e-400", "-1e-400", "1.7976931348623157e308",
+                    "-1.7976931348623157e308", "1.5", "1e10", "-1.25E-3", ".5", "5.", "0.1", "+3.0", "123456789012345678901234567890", "0.30000000000000004",
+                    "9007199254740993", "1e23", "8.41e21", "-1", "1E+2", "1e-7", "1e21", "1e-5", "100000000000000000000",
                 ];
-                if self.chance(35) {
+                let r = self.rng.below(100);
+                if r < 25 {
                     let bits = self.rng.next();
                     let f = f64::from_bits(bits);
                     if f.is_nan() {
@@ -294,6 +301,11 @@ impl<'a> G<'a> {
                     } else {
                         GText::plain(format!("{:e}", f).as_bytes())
                     }
+                } else if r < 85 {
+                    let k = self.fcur % F.len();
+                    self.fcur += 1;
+                    self.stat(&format!("float-special.{}", F[k]));
+                    GText::plain(F[k].as_bytes())
                 } else {
                     GText::plain(F[self.rng.below(F.len() as u64) as usize].as_bytes())
                 }
@@ -1521,7 +1533,8 @@ pub fn main(args: &[String]) {
         }
         for (k, types) in by_kind.iter() {
             let always = k == "float" || k == "uint" || k == "string-preserve" || k == "attr-float" || k == "attr-uint" || k == "attr-string-preserve";
-            let reps = if always { if thorough { 6 } else { 2 } } else if thorough { 2 } else if (vi + k.len()) % 7 == 0 { 1 } else { 0 };
+            let isfloat = k == "float" || k == "attr-float";
+            let reps = if isfloat { if thorough { 10 } else { 5 } } else if always { if thorough { 6 } else { 2 } } else if thorough { 2 } else if (vi + k.len()) % 7 == 0 { 1 } else { 0 };
             for _ in 0..reps {
                 let t = types[g.rng.below(types.len() as u64) as usize];
                 let tree = g.gen_doc(*v, ch, Some(t), 12);
